@@ -338,6 +338,28 @@ theorem c03_reserved_region_fails (w : Wire) (hw : w.WF = true) (hi : 0 < w.igno
   rw [beq_eq_false_iff_ne]
   intro h; injection h with h; omega
 
+/-- … and what exactly happens to the packet there: it is still accepted, the elements in front of
+    the reserved id are right, and the ignored bytes of the block (the last `w.ignored` bytes in
+    front of offset `w.extEnd`) are handed out in front of the payload -/
+theorem c03_reserved_region_payload (w : Wire) (hw : w.WF = true) (hi : 0 < w.ignored) (r : Packet) :
+    ∃ p, pktUnmarshal r w.encode = .ok p ∧ p.header = hdrOf r.header w ∧
+      p.payload = (w.encode.take w.extEnd).drop (w.extEnd - w.ignored) ++ w.payload ∧
+      p.payload.length = w.ignored + w.payload.length := by
+  have ha : w.appbits = false := by
+    cases hx : w.ext with
+    | none => simp [Wire.appbits, hx]
+    | some b =>
+      cases b with
+      | oneByte items stop => simp [Wire.appbits, hx, ExtBlock.appbits]
+      | twoByte a items => simp [Wire.ignored, hx, ExtBlock.ignored] at hi
+      | legacy p ws => simp [Wire.appbits, hx, ExtBlock.appbits]
+  have h := pktUnmarshal_encode_gen w r (wireOk_of_WF w hw ha)
+  rw [wireUnread_eq] at h
+  have hle := ignored_le_extEnd w
+  refine ⟨_, h, rfl, by simp only [take_extEnd], ?_⟩
+  simp only [List.length_append, List.length_drop, headBytes_length]
+  omega
+
 /-! ### the known finding `c03_twobyte_appbits` (new; RFC 8285 §4.3: appbits MUST be ignored by
     the receiver) -/
 
